@@ -17,7 +17,7 @@ from tracelib import *
 PROP = "C13"
 LEVEL = "exploration"
 FLAVOUR = "plain"
-TIERS = {"quick": (12000, 170), "thorough": (500000, 3300)}
+TIERS = {"quick": (40000, 170), "thorough": (2500000, 3300)}
 RULE_TEXT = ("one run = one generated chart x one event history (engine large or fast; deterministic-history mode or stepper+controller with cancel under the "
              "seeded scheduler); the monitor stream of every session is parsed by the push-down acceptor and cross-checked; non-trivial = at least 3 micro-step "
              "brackets and 20 notifications were parsed; distinct = distinct (chart, ops, engine) content hashes")
